@@ -1514,6 +1514,33 @@ def intersect1d(a, b, **kw):
     return asarray(r)
 
 
+def sort(a, axis=-1, **kw):
+    """Ascending sort along an axis.  Symbolic lanes are sorted by insertion with forking comparisons (each explored path fixes one
+    ordering of the lane), so lanes must be short; NaN ordering is outside (real arithmetic)."""
+    a = asarray(a)
+    if a.is_concrete():
+        return asarray(_np.sort(a.to_numpy(), axis=axis))
+    if axis is None:
+        a, axis = a.reshape(-1), 0
+    axis = axis % a.ndim
+    if a.shape[axis] > 4:
+        raise Unsupported("numpy.sort of a symbolic lane longer than 4")
+    idx = _np.arange(a.size).reshape(a.shape)
+    lanes = _np.moveaxis(idx, axis, -1).reshape(-1, a.shape[axis])
+    flat = a.elems()
+    out = list(flat)
+    for lane in lanes.tolist():
+        vals = []
+        for i in lane:
+            v, k = flat[i], len(vals)
+            while k > 0 and builtins.bool(v < vals[k - 1]):
+                k -= 1
+            vals.insert(k, v)
+        for i, v in zip(lane, vals):
+            out[i] = v
+    return SymArray.from_elems(out, a.shape, a.dtype)
+
+
 def may_share_memory(a, b):
     return isinstance(a, SymArray) and isinstance(b, SymArray) and a.base is b.base
 
